@@ -9,6 +9,7 @@ import (
 
 	"github.com/onflow/cadence"
 	"github.com/onflow/cadence/common"
+	"github.com/onflow/cadence/runtime"
 
 	"verif/mc"
 	"verif/rt"
@@ -27,6 +28,7 @@ type c26Src struct {
 	id    string
 	valid bool   // parses, checks, declares the requested name
 	enum  bool   // declares an enum
+	initPanics bool // the initializer panics: add must fail; as an update source it is a valid, compatible program
 	xType string // type of field x ("Int" / "String")
 	x     string // rendering of x after this source's initializer ran
 	v     int    // what v() returns
@@ -37,6 +39,7 @@ var c26Sources = map[string]*c26Src{
 	"v2":   {id: "v2", valid: true, xType: "Int", x: "20", v: 2},
 	"v3":   {id: "v3", valid: true, xType: "String", x: "\"s\"", v: 3}, // incompatible with v1/v2/en (field type)
 	"en":   {id: "en", valid: true, enum: true, xType: "Int", x: "40", v: 4},
+	"pini": {id: "pini", valid: true, initPanics: true, xType: "Int", x: "70", v: 7},
 	"terr": {id: "terr"}, // type error
 	"name": {id: "name"}, // declares another name
 }
@@ -51,6 +54,8 @@ func c26Code(name, src string) string {
 		return fmt.Sprintf("import CI from 0x3\naccess(all) contract %s: CI {\n    access(all) var x: String\n    access(all) fun v(): Int { return 3 }\n    init() { self.x = \"s\" }\n}\n", name)
 	case "en":
 		return fmt.Sprintf("import CI from 0x3\naccess(all) contract %s: CI {\n    access(all) enum En: UInt8 { access(all) case a }\n    access(all) var x: Int\n    access(all) fun v(): Int { return 4 }\n    init() { self.x = 40 }\n}\n", name)
+	case "pini":
+		return fmt.Sprintf("import CI from 0x3\naccess(all) contract %s: CI {\n    access(all) var x: Int\n    access(all) fun v(): Int { return 7 }\n    init() { self.x = 70; panic(\"init\") }\n}\n", name)
 	case "terr":
 		return fmt.Sprintf("import CI from 0x3\naccess(all) contract %s: CI {\n    access(all) var x: Int\n    access(all) fun v(): Int { return \"five\" }\n    init() { self.x = 50 }\n}\n", name)
 	case "name":
@@ -129,9 +134,12 @@ func (m *c26Model) names(ai int) []string {
 type c26State struct {
 	L *rt.Ledger
 	M *c26Model
+	// Env, if set, is the one runtime environment all transactions of this history run in
+	// (a host that reuses its environment); nil = a fresh environment per transaction
+	Env runtime.Environment
 }
 
-func (s *c26State) clone() *c26State { return &c26State{L: s.L.Clone(), M: s.M.clone()} }
+func (s *c26State) clone() *c26State { return &c26State{L: s.L.Clone(), M: s.M.clone(), Env: s.Env} }
 
 func c26Init(vm bool) *c26State {
 	l := rt.NewLedger()
@@ -208,7 +216,7 @@ func c26Predict(view map[string]c26Dep, removed map[string]bool, c c26Call) int 
 		if exists {
 			return pAbort // "add fails for an existing name"
 		}
-		if !c26Sources[c.Src].valid {
+		if !c26Sources[c.Src].valid || c26Sources[c.Src].initPanics {
 			return pAbort
 		}
 		if removed[c.Name] {
@@ -312,8 +320,9 @@ access(all) fun main() {
 `
 
 type c26Ctx struct {
-	vm  bool
-	env *mc.Env
+	vm        bool
+	env       *mc.Env
+	noObserve bool // replaying a prefix: transactions and their own oracle only
 }
 
 func (c *c26Ctx) eval() {
@@ -361,12 +370,29 @@ func c26CallClass(view map[string]c26Dep, c c26Call) string {
 		sc = "incompatible"
 	case n.enum:
 		sc = "valid-with-enum"
+	case n.initPanics:
+		sc = "init-panics"
 	}
 	return c.Kind + "(" + sc + ")|" + st
 }
 
 // c26Step runs one transaction and the observers; st is updated in place.
 func c26Step(cx *c26Ctx, st *c26State, ops string) (viols []viol) {
+	// "t1>>t2": two transactions in a row (used in the reused-environment mode to put a
+	// failing transaction in front of another one; a failed transaction does not change the state key)
+	if i := strings.Index(ops, ">>"); i >= 0 {
+		if viols = c26Step(cx, st, ops[:i]); len(viols) > 0 {
+			return
+		}
+		vs := c26Step(cx, st, ops[i+2:])
+		for k := range vs {
+			if st.Env != nil {
+				vs[k].Sig = "after-failed-tx-in-same-environment|" + vs[k].Sig
+			}
+			vs[k].Detail = "after " + ops[:i] + ": " + vs[k].Detail
+		}
+		return vs
+	}
 	o, ok := parseC26Op(ops)
 	if !ok {
 		return []viol{{"malformed-op", ops}}
@@ -375,7 +401,7 @@ func c26Step(cx *c26Ctx, st *c26State, ops string) (viols []viol) {
 	m := st.M
 	as := addrStr(o.Acct)
 
-	res := rt.Run(st.L, rt.Tx{Source: c26TxSource(o, c26Names), Signers: []common.Address{rt.Addr(byte(o.Acct))}, UseVM: cx.vm})
+	res := rt.Run(st.L, rt.Tx{Source: c26TxSource(o, c26Names), Signers: []common.Address{rt.Addr(byte(o.Acct))}, UseVM: cx.vm, Environment: st.Env})
 	cx.eval()
 	logs := unquoteLogs(res.Logs)
 	callLog := func(i int) string {
@@ -524,7 +550,9 @@ func c26Step(cx *c26Ctx, st *c26State, ops string) (viols []viol) {
 	} else {
 		cx.class("tx:ok", nil)
 	}
-	viols = append(viols, c26Observe(cx, st, sigPath)...)
+	if !cx.noObserve {
+		viols = append(viols, c26Observe(cx, st, sigPath)...)
+	}
 	return
 }
 
@@ -641,7 +669,7 @@ func c26Ops(m *c26Model, thorough bool, singlesOnly bool) []string {
 		srcs := []string{"v1", "v2", "en"}
 		if full {
 			names = []string{"A", "B"}
-			srcs = []string{"v1", "v2", "v3", "en", "terr", "name"}
+			srcs = []string{"v1", "v2", "v3", "en", "pini", "terr", "name"}
 		}
 		var singles []c26Call
 		for _, n := range names {
@@ -704,40 +732,110 @@ func c26Ops(m *c26Model, thorough bool, singlesOnly bool) []string {
 	return out
 }
 
+// c26Chains: (failing transaction, following one-call transaction) pairs of account 1 on the
+// same name. Only generated in the reused-environment mode: with a fresh environment per
+// transaction a failed transaction cannot influence the next one.
+func c26Chains(m *c26Model) []string {
+	var out []string
+	srcs := []string{"v1", "v2", "v3", "en", "pini", "terr", "name"}
+	for _, n := range c26Names {
+		var singles []c26Call
+		for _, k := range []string{"add", "upd", "try"} {
+			for _, s := range srcs {
+				singles = append(singles, c26Call{k, n, s})
+			}
+		}
+		singles = append(singles, c26Call{"rem", n, ""})
+		var failing []c26Op
+		for _, c := range singles {
+			switch c26Predict(m.A[1], map[string]bool{}, c) {
+			case pAbort:
+				failing = append(failing, c26Op{1, "ok", []c26Call{c}})
+			case pOK:
+				failing = append(failing, c26Op{1, "panic", []c26Call{c}})
+			}
+		}
+		for _, f := range failing {
+			for _, c := range singles {
+				out = append(out, f.String()+">>"+c26Op{1, "ok", []c26Call{c}}.String())
+			}
+		}
+	}
+	return out
+}
+
 type c26Case struct {
-	VM   bool     `json:"vm"`
-	Path []string `json:"path"`
-	Sig  string   `json:"signature"`
+	VM    bool     `json:"vm"`
+	Reuse bool     `json:"reused_environment"`
+	Path  []string `json:"path"`
+	Sig   string   `json:"signature"`
+}
+
+// c26Replay runs path from the empty state; reuse = one runtime environment for the whole history.
+// Only the last element gets the fresh-runtime observers unless observeAll.
+func c26Replay(cx *c26Ctx, reuse bool, path []string, observeAll bool) (st *c26State, at int, viols []viol) {
+	st = c26Init(cx.vm)
+	if reuse {
+		st.Env = rt.NewTxEnvironment(cx.vm)
+	}
+	for i, op := range path {
+		c := *cx
+		c.noObserve = !observeAll && i < len(path)-1
+		if vs := c26Step(&c, st, op); len(vs) > 0 {
+			return st, i, vs
+		}
+	}
+	return st, len(path), nil
 }
 
 func runC26(env *mc.Env) {
 	depth := mc.Pick(env, 3, 4)
+	chainDepth := mc.Pick(env, 1, 2) // chains are generated in states up to this depth
 	for _, vm := range []bool{false, true} {
-		cx := &c26Ctx{vm: vm, env: env}
-		mc.BFS(env, mc.BFSOpts[*c26State]{
-			Init:     []mc.Node[*c26State]{{State: c26Init(vm)}},
-			MaxDepth: depth,
-			Ops: func(n *mc.Node[*c26State]) []string {
-				// the last level uses one-call transactions only
-				return c26Ops(n.State.M, env.Thorough(), n.Depth == depth-1)
-			},
-			Step: func(n *mc.Node[*c26State], op string) (*c26State, bool) {
-				st := n.State.clone()
-				vs := c26Step(cx, st, op)
-				if len(vs) > 0 {
-					p := append(append([]string(nil), n.Path...), op)
-					for _, v := range vs {
-						env.R.Violation(v.Sig, c26Case{VM: vm, Path: p, Sig: v.Sig}, v.Detail)
+		for _, reuse := range []bool{false, true} {
+			cx := &c26Ctx{vm: vm, env: env}
+			mc.BFS(env, mc.BFSOpts[*c26State]{
+				Init:     []mc.Node[*c26State]{{State: c26Init(vm)}},
+				MaxDepth: depth,
+				Ops: func(n *mc.Node[*c26State]) []string {
+					// the last level uses one-call transactions only
+					ops := c26Ops(n.State.M, env.Thorough(), n.Depth == depth-1)
+					if reuse && n.Depth <= chainDepth {
+						ops = append(ops, c26Chains(n.State.M)...)
 					}
-					return nil, false
-				}
-				return st, true
-			},
-			Key: func(s *c26State) string { return fmt.Sprintf("vm=%v %s", vm, s.M.key()) },
-		})
+					return ops
+				},
+				Step: func(n *mc.Node[*c26State], op string) (*c26State, bool) {
+					p := append(append([]string(nil), n.Path...), op)
+					var st *c26State
+					var vs []viol
+					if reuse {
+						// the environment cannot be cloned: re-run the history in one fresh environment
+						// (prefix without observers; it was observed when it was first explored)
+						var at int
+						st, at, vs = c26Replay(cx, true, p, false)
+						if len(vs) > 0 {
+							p = p[:at+1]
+						}
+						st.Env = nil
+					} else {
+						st = n.State.clone()
+						vs = c26Step(cx, st, op)
+					}
+					if len(vs) > 0 {
+						for _, v := range vs {
+							env.R.Violation(v.Sig, c26Case{VM: vm, Reuse: reuse, Path: p, Sig: v.Sig}, v.Detail)
+						}
+						return nil, false
+					}
+					return st, true
+				},
+				Key: func(s *c26State) string { return fmt.Sprintf("vm=%v reuse=%v %s", vm, reuse, s.M.key()) },
+			})
+		}
 	}
 	if !env.Expired() {
-		env.R.BoundCompleted(fmt.Sprintf("depth<=%d transactions from the empty state, interpreter and VM", depth))
+		env.R.BoundCompleted(fmt.Sprintf("depth<=%d transactions from the empty state; fresh and reused runtime environment; interpreter and VM", depth))
 	}
 }
 
@@ -747,17 +845,14 @@ func replayC26(env *mc.Env, raw json.RawMessage) (bool, string) {
 		return false, err.Error()
 	}
 	cx := &c26Ctx{vm: c.VM}
-	st := c26Init(c.VM)
-	for i, op := range c.Path {
-		vs := c26Step(cx, st, op)
-		for _, v := range vs {
-			if v.Sig == c.Sig {
-				return true, fmt.Sprintf("after %v: %s", c.Path[:i+1], v.Detail)
-			}
+	_, at, vs := c26Replay(cx, c.Reuse, c.Path, !c.Reuse)
+	for _, v := range vs {
+		if v.Sig == c.Sig {
+			return true, fmt.Sprintf("after %v: %s", c.Path[:at+1], v.Detail)
 		}
-		if len(vs) > 0 {
-			return false, fmt.Sprintf("different complaint after %v: %s: %s", c.Path[:i+1], vs[0].Sig, vs[0].Detail)
-		}
+	}
+	if len(vs) > 0 {
+		return false, fmt.Sprintf("different complaint after %v: %s: %s", c.Path[:at+1], vs[0].Sig, vs[0].Detail)
 	}
 	return false, "path ran without a complaint"
 }
@@ -765,7 +860,7 @@ func replayC26(env *mc.Env, raw json.RawMessage) (bool, string) {
 func init() {
 	mc.Register(&mc.Check{
 		ID: "C26",
-		Rule: "explicit-state BFS (depth 3 transactions, thorough 4; the last level uses one-call transactions only) over contract lifecycle transactions on 2 accounts x names {A,B} x sources {v1, compatible v2, incompatible v3, with-enum, type-error, name-mismatch}: " +
+		Rule: "explicit-state BFS (depth 3 transactions, thorough 4; the last level uses one-call transactions only), every history run twice: with a fresh runtime environment per transaction and with ONE environment reused across the history (then also (failing transaction, next transaction) chains on the same name), over contract lifecycle transactions on 2 accounts x names {A,B} x sources {v1, compatible v2, incompatible v3, with-enum, panicking-init, type-error, name-mismatch}: " +
 			"one or two calls of add/update/tryUpdate/remove per transaction (pairs on the same name), optionally followed by a panic; each call's outcome, the transaction's own names/get view, the AccountContract* events of successful transactions, " +
 			"and after every committed transaction a fresh-runtime view (names, get, borrow<&{CI}>, imports running the deployed code on the kept contract value, import of a missing contract) are compared with a per-account Go model; both engines. " +
 			"non-trivial = distinct (call, deployment state) pairs that succeeded or were reported failed by tryUpdate",
